@@ -227,6 +227,17 @@ func (fr *Frame) nativeCallVals(st *State, fn *ssa.Function, args []Val, sig *ty
 			used()
 			return fr.tvOf(st, args[0], nil), true
 		}
+	case "(*sync.Pool).Get":
+		// a pooled object is referenced by nobody else (the pool discipline: no use after Put): modelled as a new object of
+		// unknown dynamic type and contents
+		used()
+		ref := r.alloc(st, "pooled")
+		tag := r.declare("pooltag", SInt)
+		r.assumeGlobal(app(">", tag, "0"))
+		return TV{app("mk_iface", tag, ref), SIface, sig.Results().At(0).Type()}, true
+	case "(*sync.Pool).Put":
+		used()
+		return nil, true
 	case "(*sync.Mutex).Lock", "(*sync.RWMutex).Lock":
 		used()
 		fr.setHeld(st, args[0], 1, true)
